@@ -275,6 +275,11 @@ func (c *Controller) GetAllProcs() []proc.Proc {
 func endpointsToHosts(endpoints []*service.Endpoint) []*host.Host {
 	hosts := make([]*host.Host, 0, len(endpoints))
 	for _, endpoint := range endpoints {
+		// an endpoint without address can't be a host.
+		if endpoint == nil || endpoint.Address == nil {
+			logger.Warnf("Ignore the endpoint without address: %v", endpoint)
+			continue
+		}
 		typ := host.TypeMain
 		if endpoint.Type == service.Endpoint_BACKUP {
 			typ = host.TypeBackup
